@@ -328,7 +328,7 @@ func (s *vcSession) newConn(owner *vcAgent, addr int, mode string) *vcConn {
 		c.rRel = vcRelClose
 	}
 	s.base.hub.mu.Lock()
-	s.base.hub.eps[ua.String()] = ep
+	s.base.hub.eps[ua.String()] = []*vEP{ep}
 	s.base.hub.mu.Unlock()
 	vAddrOwner[ua.String()] = owner.h
 	owner.mu.Lock()
@@ -909,7 +909,7 @@ var (
 
 func vcRunSession(t *testing.T, first chan string) {
 	synctest.Test(t, func(t *testing.T) {
-		base := &vSession{hub: &vHub{eps: map[string]*vEP{}, blocked: map[[2]int]bool{}}, ag: map[string]*vAgentH{},
+		base := &vSession{hub: &vHub{eps: map[string][]*vEP{}, blocked: map[[2]int]bool{}}, ag: map[string]*vAgentH{},
 			epoch: time.Now(), pwds: map[string]bool{"": true}}
 		vAddrOwner = map[string]*vAgentH{}
 		s := &vcSession{base: base, rec: &vcRec{epoch: base.epoch}, ag: map[string]*vcAgent{}}
